@@ -38,6 +38,15 @@ Example C02_example_wf :
     [(HKnown H_Host, [104]); (HKnown H_ContentLength, [51]); (HCustom [120;45;97], [49]); (HCustom [120;45;97], [50])].
 Proof. vm_compute. repeat split. Qed.
 
+(* The body condition of wf_greq is met in particular by the canonical spelling of the length (what usize's Display
+   writes): `Content-Length: <dec_render |body|>` as the first Content-Length field. *)
+Theorem C02_content_length_canonical :
+  forall (g : greq) (b : bytes),
+    g_body g = Some b -> N.of_nat (length b) <= usize_max ->
+    hget (HKnown H_ContentLength) (denote_headers (g_headers g)) = Some (dec_render (N.of_nat (length b))) ->
+    wf_body g = true.
+Proof. exact wf_body_canonical. Qed.
+
 (* 2. Field names are matched ASCII-case-insensitively, and nothing else is identified: two names give the same
    HeaderType exactly when they are equal up to ASCII case.  Looking a name up in the parsed header list returns the
    values of exactly the fields whose names equal it up to ASCII case: all of them, unchanged, in arrival order
@@ -176,3 +185,4 @@ Print Assumptions C02_address_spec.
 Print Assumptions C02_address_no_header.
 Print Assumptions C02_address_padding.
 Print Assumptions C02_example_address.
+Print Assumptions C02_content_length_canonical.
